@@ -4,16 +4,17 @@ from ..runner import run_check
 
 PROPS = ["UnifexModel.Props.C16",                                  # v1 event: parametric + 2 instances
          "UnifexModel.Props.C16_auto", "UnifexModel.Props.C16_auto_a", "UnifexModel.Props.C16_auto_b",
-         "UnifexModel.Props.C16_v2", "UnifexModel.Props.C16_v2_a", "UnifexModel.Props.C16_v2_b",
-         "UnifexModel.Props.C16_pass", "UnifexModel.Props.C16_pass_a", "UnifexModel.Props.C16_pass_b"]
+         "UnifexModel.Props.C16_v2", "UnifexModel.Props.C16_v2_a", "UnifexModel.Props.C16_v2_b", "UnifexModel.Props.C16_v2_c",
+         "UnifexModel.Props.C16_pass", "UnifexModel.Props.C16_pass_a", "UnifexModel.Props.C16_pass_b",
+         "UnifexModel.Props.C16_pass_c"]
 
 EVENT_SRC = ["async_manual_reset_event_v1.cpp", "async_auto_reset_event.cpp", "inplace_stop_token.cpp",
              "async_manual_reset_event_v2.cpp", "atomic_intrusive_list.cpp"]
 V1 = ["v1_two_waiters", "v1_two_setters", "v1_set_reset", "v1_start_set", "v1_reset_noop"]
 V1_THOROUGH = ["v1_three_waiters"]
 AR = ["ar_one_consumer", "ar_cancel", "ar_cancel_vs_set", "ar_two_consumers", "ar_start_ready"]
-V2 = ["v2_two_waiters", "v2_set_reset", "v2_cancel", "v2_cancel_vs_set"]
-PASS = ["pass_rendezvous", "pass_cancel_call", "pass_cancel_accept", "pass_cancel_call_plain", "pass_try_call", "pass_try_accept"]
+V2 = ["v2_two_waiters", "v2_set_reset", "v2_cancel", "v2_cancel_vs_set", "v2_ready_busy"]
+PASS = ["pass_rendezvous", "pass_cancel_call", "pass_cancel_accept", "pass_cancel_call_plain", "pass_try_call", "pass_try_accept", "pass_late_stop"]
 
 QUICK = dict(preemptions=2, max_execs=1500)
 THOROUGH = dict(preemptions=3, max_execs=60000)
@@ -31,7 +32,7 @@ def run(tier, seed, replay=None):
     ]
     return run_check(
         "C16", tier, seed, PROPS, parts,
-        rule="every schedule (DFS, preemption-bounded, plus random/PCT walks) of 20 scenarios (21 thorough) on the real v1/v2 "
+        rule="every schedule (DFS, preemption-bounded, plus random/PCT walks) of 22 scenarios (23 thorough) on the real v1/v2 "
              "manual-reset events, the auto-reset event and async_pass under the controlled scheduler; a case = one distinct "
              "observable history (calls, returns, completions with the thread that ran them); non-trivial = admitted by the "
              "Lean model configuration of the same name",
@@ -55,6 +56,8 @@ def run(tier, seed, replay=None):
                     "in both directions (completion_forwarder's reschedule is unstoppable since /repo b17d5ba; regression monitors kept).  "
                     "v2 event: every instance incl. cancellation proves completion on the waiter's scheduler, no value after a won cancel "
                     "race, no access to the operation after completion (model follows the repaired stop(): tools/checks/c16_repair.patch; "
-                    "regression monitor kept).  "
+                    "regression monitor kept); ready() is a linearizable observation of 'set' (bad=7, v2_ready_busy: probes racing with a late "
+                    "wait and a redundant set() on a signalled event).  async_pass: slot consistency (slotOk: a parked party IS the word and "
+                    "vice versa) in every instance, incl. pass_late_stop (late stop of an already claimed call while another waiter parks).  "
                     "Tie: trace inclusion of real executions in the models; monitors independent of the models.  "
                     "Mutations tried: tools/checks/c16_mutations.md.")
